@@ -279,6 +279,9 @@ def identity_really_fails(got, exp, model, mod, seed, extra_points=8, const_valu
             pt2 = rand_pt()
             pt2[b_] = (-pt2[a_]) % mod
             points.append(pt2)
+            pt3 = rand_pt()
+            pt3[b_] = pt3[a_]          # two unknowns EQUAL (co-Z operands, equal coefficients)
+            points.append(pt3)
         # four unknowns: two coefficient pairs that cancel (x = -y in the extension field)
         if len(ints) <= 24:
             pairs = [(ints[i], ints[i + 1]) for i in range(0, len(ints) - 1, 2)]
